@@ -22,7 +22,7 @@ func init() {
 	register("C14", "each listed stdlib function x wholly known argument lists: numbers of every magnitude/precision class (small/huge ints, halves, "+
 		"float64 incl. random bit patterns, 512-bit decimals, low precision, ±0, ±inf); strings over the C05 alphabet (ASCII, combining marks, Hangul jamo, "+
 		"emoji ZWJ sequences, regional indicators, CRLF); digit strings in bases 2..62; generated regexps, RFC 3339 timestamps, durations, date formats, CSV, "+
-		"printf-like format strings from the verb grammar. Outcome classes are compared with the Lean model (oracle columns computed by the real libraries) "+
+		"printf-like format strings from the verb grammar with generated flags/width/precision/argument indices; JSON-representable values (jsondecode(jsonencode v) = v, search only). Outcome classes are compared with the Lean model (oracle columns computed by the real libraries) "+
 		"and judged against math/big and the Go standard library. non-trivial = the call reached Impl (no argument-check error); "+
 		"distinct = distinct canonical (function, arguments) strings", runC14)
 }
@@ -286,6 +286,9 @@ func runC14Numbers(ctx *Ctx) {
 				for j := 0; j < fn.arity; j++ {
 					args = append(args, genC14Num(ctx))
 				}
+			}
+			if i == 0 && fn.name == "signum" {
+				args = []cty.Value{cty.NumberFloatVal(0.5)} // corpus: minimal witness of the signum finding
 			}
 			out, res, class := stdOut(fn.f, args)
 			ctx.Add("std.num", out, fn.name, wireArgs(args))
@@ -620,7 +623,13 @@ func runC14Bytes(ctx *Ctx) {
 		if buf == nil {
 			buf = []byte{}
 		}
+		if i == 0 {
+			buf = []byte("a") // corpus: witness of the offset+length overflow repaired by c7a738f
+		}
 		genI := func() cty.Value {
+			if i == 0 {
+				return cty.NilVal
+			}
 			switch r.Intn(10) {
 			case 0:
 				return cty.NumberIntVal(math.MaxInt64 - int64(r.Intn(2)))
@@ -632,6 +641,9 @@ func runC14Bytes(ctx *Ctx) {
 			return cty.NumberIntVal(int64(r.Intn(8)))
 		}
 		off, ln := genI(), genI()
+		if i == 0 {
+			off, ln = cty.NumberIntVal(1), cty.NumberIntVal(math.MaxInt64)
+		}
 		bv := stdlib.BytesVal(buf)
 		out, lres, lclass := stdOut(stdlib.BytesLenFunc, []cty.Value{bv})
 		if lclass != "ok" || !lres.RawEquals(cty.NumberIntVal(int64(len(buf)))) {
@@ -667,9 +679,9 @@ func runC14Bytes(ctx *Ctx) {
 		case impl == "panic" || impl == "panicerr":
 			sig := "byteslice-panic"
 			if oacc == big.Exact && lacc == big.Exact && oi > 0 && li > math.MaxInt64-oi {
-				sig = "byteslice-offset-plus-length-overflow"
+				sig = "byteslice-offset-plus-length-overflow" // regression of fix c7a738f
 			}
-			ctx.Fail(Failure{Site: "byteslice", Sig: sig, What: "offset+length overflows int and the slice expression panics inside Impl (PanicError) instead of the documented range error", Input: key, GoLit: lit, Outcome: impl})
+			ctx.Fail(Failure{Site: "byteslice", Sig: sig, What: "the slice request panics inside Impl (PanicError) instead of the documented range error", Input: key, GoLit: lit, Outcome: impl})
 		case inDomain && impl != fmt.Sprintf("ok %d %d", oi, oi+li):
 			ctx.Fail(Failure{Site: "byteslice", Sig: "byteslice-wrong", What: "in-range slice request failed or returned the wrong range", Input: key, GoLit: lit, Outcome: impl})
 		case !inDomain && impl != "err":
@@ -682,4 +694,5 @@ func runC14(ctx *Ctx) {
 	runC14Numbers(ctx)
 	runC14Strings(ctx)
 	runC14Format(ctx)
+	runC14Json(ctx)
 }
